@@ -201,7 +201,7 @@ package corerad
 //@   assigns everything
 //@   at call Go(g, f): ghost.egNeeds = egNeedSet(ghost.egNeeds, g, ctx.val)
 //@   at call receiveRetry(rl, rctx) (rm, rhost, rerr): ghost.lastM = rm ; ghost.lastHost = rhost
-//@   at call onMessage(msg): assert D1 [C09]: msg.Message == ghost.lastM && msg.Message != nil && ghost.lastHop == 255 ; assert Z1 [C18]: msg.Host == addrWithZone(ghost.lastHost, "")
+//@   at call onMessage(msg): assert D1 [C09]: msg.Message == ghost.lastM && msg.Message != nil && ghost.lastHop == 255 ; assert Z1 [C18,C07]: msg.Host == addrWithZone(ghost.lastHost, "")
 //@   loop 1 invariant L0 [C10]: l != nil && listenerOK(l) && ctx != nil && egNeed(ghost.egNeeds, addr(eg)) == ctx.val && cancelOf(cancel) == ctx.val
 //@   opt safety [C09,C10]
 
@@ -209,15 +209,21 @@ package corerad
 // advertise.go: goroutine bodies must stay cancellable (C10: no half-alive task)
 
 // Listener callback: forwards each destination handle() returns to the scheduler.
+// It requests an RA only for what handle() answered: exactly the destination
+// handle returned, and nothing when handle returned no destination (C09: an
+// invalid or ignored message never causes an advertisement).
 //@ func (*Advertiser).advertise$3$1
 //@   ghost local sends Int
+//@   ghost local handled Bool
+//@   ghost local hres Addr
+//@   at call handle(ha, hm, hh) (hip, herr): ghost.handled = true ; ghost.hres = hip
 //@   opt capture CAP
 //@   opt refines funcparam:corerad.(*listener).Listen.onMessage
 //@   opt refinetags [C07,C09]
 //@   requires CAP [C10]: ctx != nil && a != nil && advOK(a) && ifiOK(a.cfg)
 //@   opt cancelable [C10]
 //@   assigns everything
-//@   at send ipC(v): ghost.sends = ghost.sends + 1
+//@   at send ipC(v): assert D1 [C07,C09]: ghost.handled && addrIsValid(ghost.hres) && v == ghost.hres ; ghost.sends = ghost.sends + 1
 //@   ensures S1 [C07]: ghost.sends <= 1
 //@   opt safety [C10]
 
